@@ -85,7 +85,16 @@ class History:
 
     def new_state(self):
         rng = self.rng
-        how = str(rng.choice(['random', 'random', 'max', 'from_vector', 'fill']))
+        how = str(rng.choice(['random', 'random', 'max', 'from_vector', 'fill', 'unreachable-sector', 'disjoint-bond']))
+        if how in ('unreachable-sector', 'disjoint-bond'):
+            # exactly-zero states: the announced total sector cannot be reached / an inner bond shares no charge with its neighbours
+            if how == 'disjoint-bond':
+                psi = gen.rand_mps(rng, self.qd, self.L, 'disjoint', Dmax=3)
+            else:
+                qD = gen.mps_qD(rng, self.qd, self.L, 'random', Dmax=3)
+                qD[-1] = np.array([int(np.max(np.abs(self.qd))) * (self.L + 2) + 7])
+                psi = ptn.MPS(self.qd, qD, fill='random', rng=rng)
+            return Obj('mps', psi, refs.dense_state(psi.A), 'q')
         if how == 'from_vector':
             v = rng.normal(size=self.d ** self.L) + 1j * rng.normal(size=self.d ** self.L)
             psi = ptn.MPS.from_vector(self.d, self.L, v, float(rng.choice([0, 1e-3])))
